@@ -226,7 +226,7 @@ func JudgeWorkConservation(w *World) *Verdict {
 	v := &Verdict{History: h, Findings: EngineFindings(h)}
 	var tot ProgressFacts
 	for _, rec := range h.Cycles {
-		if rec.Panic != "" || rec.Hung {
+		if rec.Panic != "" || rec.Hung || rec.Starved {
 			continue
 		}
 		fs, f := CheckWorkConservation(w, rec)
@@ -318,7 +318,7 @@ func JudgeDisplacement(w *World) *Verdict {
 	h := Run(w, nil)
 	v := &Verdict{History: h, Findings: EngineFindings(h), Nontrivial: true}
 	v.Classes = append(v.Classes, "family:"+w.Family)
-	if len(h.Cycles) == 0 || h.Cycles[0].Panic != "" || h.Cycles[0].Hung {
+	if len(h.Cycles) == 0 || h.Cycles[0].Panic != "" || h.Cycles[0].Hung || h.Cycles[0].Starved {
 		return v
 	}
 	rec := h.Cycles[0]
